@@ -104,6 +104,8 @@ def sankey_cases(prog, rep, fails):
             for excl_f in ([], ["first"], ["isolate"]):
                 for split in (None, "a", "aa"):
                     settings.append((slice_kind, excl_p, excl_f, split, False))
+                    if split is None and excl_f == [] and slice_kind == "none":
+                        settings.append((slice_kind, excl_p, excl_f, split, "ids"))     # hand-built system: ids not in listing order, with gaps
                     if split is None and (excl_p or excl_f) and excl_p != []:
                         # history: the plotter exists (and has plotted) with default exclusions; the exclusions are then assigned
                         settings.append((slice_kind, excl_p, excl_f, split, True))
@@ -117,7 +119,11 @@ def sankey_cases(prog, rep, fails):
             it = w.it
             log = []
             install_plot_models(it, log)
-            mfa, leafs = SYS.build_system(w, graph)
+            proc_ids = None
+            if late == "ids":
+                others = [p for p in graph[0] if p != "sysenv"]
+                proc_ids = {"sysenv": 0, **{p: 3 * (len(others) - i) + 1 for i, p in enumerate(others)}}
+            mfa, leafs = SYS.build_system(w, graph, proc_ids=proc_ids)
             fnames = list(mfa.f["flows"])
             kw = dict(mfa=mfa)
             slice_dict = {}
@@ -142,6 +148,9 @@ def sankey_cases(prog, rep, fails):
                 continue        # split by a dimension that the slice removes: not a meaningful setting
             inp = {"graph": gi, "slice": slice_dict, "exclude_processes": excl_p if excl_p is not None else "default", "exclude_flows": ef,
                    "split_flow_by": split, "split_flow": split_flow}
+            if late == "ids":
+                inp["process_ids"] = proc_ids
+                late = False
             if late:
                 inp["history"] = "plotter built and plotted without these exclusions; exclude_processes / exclude_flows assigned afterwards; plot() again"
                 late_kw = {k: kw.pop(k) for k in ("exclude_processes", "exclude_flows") if k in kw}
